@@ -1,6 +1,7 @@
 import Gallia.Proofs.Lemmas.HsfzSys
 import Gallia.Proofs.Lemmas.HsfzOrder
 import Gallia.Proofs.Lemmas.HsfzRun
+import Gallia.Proofs.Lemmas.HsfzSysExec
 import Gallia.Gen.C07Hsfz
 /-
   C07 — HSFZ: frames are demultiplexed correctly under any segmentation and interleaving.
@@ -454,6 +455,127 @@ theorem closed_connection_refuses (cfg : Cfg) (yields : Wire → Bool) (s : Sys)
   refine ⟨by simp [execOp, hi, hc, isIdle], by simp [execOp, hi, hc, isIdle], ?_⟩
   simp only [execOp]
   rw [settle_stopped]; simp [hc]
+
+/-! ### whole executions of one connection, from before `connect()` to after `close()` (`Model/HsfzSys.lean`)
+
+  An execution is an arbitrary list of events `ops : List HsfzSys.Op` - bytes arriving in any segmentation (also before
+  `connect`), `connect`, client calls (write / read, each with the caller's timeout), `close`, end of stream, time
+  passing - run from the initial state `{}`; `yields` is an arbitrary schedule of reader task and blocked consumer; the
+  ack timeout is the one of the URI (`HsfzSys.cfgOfUri`).  `HsfzSys.fedBytes ops` is the whole byte stream the gateway
+  sent.  Every statement below holds for every `ops` and every `yields`. -/
+
+section WholeExecutions
+
+/-- the URI's `ack_timeout` default and the unit conversion are those of the code -/
+theorem uri_defaults_agree :
+    HsfzSys.defaultAckMs = Gen.C07Hsfz.defaultAckTimeoutMs ∧ Gen.C07Hsfz.ackTimeoutDivisor = 1000 ∧
+    (∀ a b, (HsfzSys.cfgOfUri a b none).ackTimeout = 1000) ∧ (∀ a b t, (HsfzSys.cfgOfUri a b (some t)).ackTimeout = t) := by
+  refine ⟨by decide, by decide, fun _ _ => rfl, fun _ _ _ => rfl⟩
+
+/-- **reads account for every data frame.**  For every event list and schedule: the payloads handed out by reads so
+    far, followed by the ECU -> tester payloads still on their way - held by the blocked consumer, queued, complete in
+    the receive buffer (of a connection closed meanwhile, or not yet connected) - are exactly the payloads of the
+    ECU -> tester data frames of the byte stream, in stream order: each delivered at most once, none lost, invented or
+    reordered, whatever else is interleaved and however the calls end.  `reads_account_for_every_frame` is the
+    instance for event lists that start with `connect` and never `close`. -/
+theorem hsfz_reads_account (cfg : Cfg) (yields : Wire → Bool) (ops : List HsfzSys.Op) :
+    delivered (HsfzSys.exec cfg yields {} ops).core.done ++
+      dataOf cfg (held (HsfzSys.exec cfg yields {} ops).core.client ++
+        ((HsfzSys.exec cfg yields {} ops).core.queue ++
+          items (parseAll hsfzCutter ((HsfzSys.exec cfg yields {} ops).core.buf ++ (HsfzSys.exec cfg yields {} ops).pre)).1)) =
+      dataOf cfg (items (parseAll hsfzCutter (HsfzSys.fedBytes ops)).1) ∧
+    delivered (HsfzSys.exec cfg yields {} ops).core.done <+:
+      dataOf cfg (items (parseAll hsfzCutter (HsfzSys.fedBytes ops)).1) := by
+  have h := (HsfzSys.exec_core_conserved cfg yields (WF cfg) (arrived cfg)
+    (fun c o hc => execOp_arrived cfg yields c o hc)
+    (fun c hc _ => ⟨⟨fun sk cc h => hc.1 sk cc h, hc.2⟩, fun _ => rfl⟩) ops {} (WF_idle cfg _ rfl rfl)
+    (fun h => by cases h)).2 []
+  have h1 : delivered (HsfzSys.exec cfg yields {} ops).core.done ++
+      dataOf cfg (held (HsfzSys.exec cfg yields {} ops).core.client ++
+        ((HsfzSys.exec cfg yields {} ops).core.queue ++
+          items (parseAll hsfzCutter ((HsfzSys.exec cfg yields {} ops).core.buf ++ (HsfzSys.exec cfg yields {} ops).pre)).1)) =
+      dataOf cfg (items (parseAll hsfzCutter (HsfzSys.fedBytes ops)).1) := by
+    simpa [arrived, held] using h
+  exact ⟨h1, ⟨_, h1⟩⟩
+
+/-- **a closed connection never has a blocked call.**  In every state of every execution: a closed connection
+    (client `close()`, ack timeout, error control word) has no pending call; an open connection whose stream is
+    alive has parsed every complete frame; a blocked call has drained the queue and its connection is open -/
+theorem hsfz_closed_never_blocks (cfg : Cfg) (yields : Wire → Bool) (ops : List HsfzSys.Op) :
+    ((HsfzSys.exec cfg yields {} ops).core.closed = true → (HsfzSys.exec cfg yields {} ops).core.client = .idle) ∧
+    (((HsfzSys.exec cfg yields {} ops).core.closed || (HsfzSys.exec cfg yields {} ops).core.eof) = false →
+      cutWire (HsfzSys.exec cfg yields {} ops).core.buf = none) ∧
+    ((HsfzSys.exec cfg yields {} ops).core.client ≠ .idle →
+      (HsfzSys.exec cfg yields {} ops).core.queue = [] ∧ (HsfzSys.exec cfg yields {} ops).core.closed = false) := by
+  have h := HsfzSys.exec_hinv cfg yields ops {} HInv_init
+  refine ⟨fun hc => ?_, h.quiet, fun hb => ?_⟩
+  · by_cases hi : (HsfzSys.exec cfg yields {} ops).core.client = .idle
+    · exact hi
+    · have := (h.busy hi).1; simp [hc] at this
+  · obtain ⟨a, b⟩ := h.busy hb
+    refine ⟨b, ?_⟩
+    cases hcc : (HsfzSys.exec cfg yields {} ops).core.closed <;> simp_all
+
+/-- **write outcomes over whole executions of the system.**  At any point of any execution (`ops0`: any events, `close`
+    and `connect` included) with the connection established, the client idle, the connection open and the stream alive,
+    a write starts; `ops` is any continuation of gateway bytes and passing time (what can happen while the one client
+    task is blocked), `rest` any events afterwards.  `seen` = what is queued when the request goes out, followed by the
+    items the stream delivers strictly before the write's deadline `d` = the ack timeout of the URI or the caller's
+    earlier timeout.  For every schedule: the write ends with the *first* deciding item of `seen` (an ack with control
+    word 2, the tester's address pair and the first five request bytes completes it; a bare control word fails it and
+    closes the connection) at the instant that item is queued; without one it ends *exactly at* `d` - with the
+    caller's `TimeoutError`, or with "no ack" and the connection closed; before `d` it is still blocked holding
+    everything seen.  `hsfz_write_outcomes` is this statement for executions that never `close`. -/
+theorem hsfz_write_outcomes_sys (cfg : Cfg) (yields : Wire → Bool) (ops0 : List HsfzSys.Op) (data : Bytes)
+    (tmo : Option Nat) (ops rest : List HsfzSys.Op)
+    (s : HsfzSys.Sys) (hs : s = HsfzSys.exec cfg yields {} ops0)
+    (hconn : s.connected = true) (hidle : s.core.client = .idle) (hopen : s.core.closed = false)
+    (hlive : s.core.eof = false) (htmo : tmo ≠ some 0) (hack : 0 < cfg.ackTimeout)
+    (hsafe : HsfzSys.gatewayOnly ops) (d : Nat) (byCaller : Bool)
+    (hd : (d, byCaller) = ackExpiry (s.core.now + cfg.ackTimeout) (tmo.map (s.core.now + ·)))
+    (seen : List (Nat × Item))
+    (hseen : seen = s.core.queue.map (fun x => (s.core.now, x)) ++
+      (hlog s.core.buf s.core.now (HsfzSys.lowerOps ops)).filter (fun e => decide (e.1 < d)))
+    (S : HsfzSys.Sys) (hS : S = HsfzSys.exec cfg yields {} (ops0 ++ .write data tmo :: ops)) :
+    (∀ t x, seen.find? (fun e => decides (ackMatches cfg data) e.2) = some (t, x) →
+      ∃ more, (HsfzSys.exec cfg yields S rest).core.done = s.core.done ++ (t, ackResult data x) :: more ∧
+        (x.isFrame = false → (HsfzSys.exec cfg yields S rest).core.closed = true)) ∧
+    (seen.find? (fun e => decides (ackMatches cfg data) e.2) = none → d ≤ hnow s.core.now (HsfzSys.lowerOps ops) →
+      ∃ more, (HsfzSys.exec cfg yields S rest).core.done =
+          s.core.done ++ (d, if byCaller then .timeout else .noAck) :: more ∧
+        (byCaller = false → (HsfzSys.exec cfg yields S rest).core.closed = true)) ∧
+    (seen.find? (fun e => decides (ackMatches cfg data) e.2) = none → hnow s.core.now (HsfzSys.lowerOps ops) < d →
+      S.core.client = .ackWait data (s.core.queue ++ (hlog s.core.buf s.core.now (HsfzSys.lowerOps ops)).map (·.2))
+        (s.core.now + cfg.ackTimeout) (tmo.map (s.core.now + ·)) ∧ S.core.done = s.core.done ∧
+      (S.core.closed || S.core.eof) = false) := by
+  subst hseen
+  have hinv : HInv s.core := by rw [hs]; exact HsfzSys.exec_hinv cfg yields ops0 {} HInv_init
+  have hw : (HsfzSys.execOp cfg yields s (.write data tmo)).core = execOp cfg yields s.core (.write data tmo) ∧
+      (HsfzSys.execOp cfg yields s (.write data tmo)).connected = true := by
+    simp [HsfzSys.execOp, hconn]
+  have hS' : S.core = exec cfg yields (execOp cfg yields s.core (.write data tmo)) (HsfzSys.lowerOps ops) := by
+    rw [hS, HsfzSys.exec_append, ← hs]
+    have : HsfzSys.exec cfg yields s (.write data tmo :: ops) =
+        HsfzSys.exec cfg yields (HsfzSys.execOp cfg yields s (.write data tmo)) ops := by simp [HsfzSys.exec]
+    rw [this, (HsfzSys.exec_gateway cfg yields ops _ hw.2 hsafe).1, hw.1]
+  obtain ⟨a, b, c⟩ := write_run cfg yields s.core hinv hidle hopen hlive data tmo htmo hack (HsfzSys.lowerOps ops)
+    (HsfzSys.lowerOps_gatewayOnly ops hsafe) d byCaller hd
+  obtain ⟨m2, hm2⟩ := HsfzSys.exec_done_ext cfg yields rest S
+  refine ⟨fun t x h => ?_, fun h hle => ?_, fun h hlt => ?_⟩
+  · obtain ⟨more, e1, e2⟩ := a t x h []
+    replace e1 : S.core.done = s.core.done ++ (t, ackResult data x) :: more := by rw [hS']; exact e1
+    replace e2 : x.isFrame = false → S.core.closed = true := by rw [hS']; exact e2
+    refine ⟨more ++ m2, by rw [hm2, e1]; simp, fun hx => HsfzSys.exec_closed_mono cfg yields rest S (e2 hx)⟩
+  · obtain ⟨more, e1, e2⟩ := b h hle []
+    replace e1 : S.core.done = s.core.done ++ (d, if byCaller then .timeout else .noAck) :: more := by
+      rw [hS']; exact e1
+    replace e2 : byCaller = false → S.core.closed = true := by rw [hS']; exact e2
+    refine ⟨more ++ m2, by rw [hm2, e1]; simp, fun hx => HsfzSys.exec_closed_mono cfg yields rest S (e2 hx)⟩
+  · have := c h hlt
+    rw [← hS'] at this
+    exact this
+
+end WholeExecutions
 
 /-! ### non-vacuity -/
 
